@@ -349,6 +349,11 @@ func mapField(
 		if nextSource.Pointer {
 			innerStmt = append(innerStmt, jen.Id(tempName).Op("=").Add(returnID.Code))
 		} else {
+			if ctx.Conf.SkipCopySameType && returnID.Variable {
+				// the pointer may be handed to the target as it is
+				// (skipCopySameType): it must not point into the source.
+				returnID = xtype.OtherID(returnID.Code)
+			}
 			pstmt, pointerID := returnID.Pointer(nextSource, ctx.Name)
 			innerStmt = append(innerStmt, pstmt...)
 			innerStmt = append(innerStmt, jen.Id(tempName).Op("=").Add(pointerID.Code))
